@@ -7,6 +7,7 @@ package verifiable
 
 import (
 	"encoding/json"
+	"errors"
 	"fmt"
 
 	"github.com/hyperledger/aries-framework-go/component/models/jwt"
@@ -21,6 +22,10 @@ type JWTPresClaims struct {
 
 func (jpc *JWTPresClaims) refineFromJWTClaims() {
 	raw := jpc.Presentation
+
+	if jpc.Claims == nil { // a payload without registered JWT claims
+		return
+	}
 
 	if jpc.Issuer != "" {
 		raw.Holder = jpc.Issuer
@@ -79,6 +84,10 @@ func decodePresJWT(vpJWT string, unmarshaller JWTPresClaimsUnmarshaller) ([]byte
 	presClaims, err := unmarshaller(vpJWT)
 	if err != nil {
 		return nil, nil, fmt.Errorf("decode Verifiable Presentation JWT claims: %w", err)
+	}
+
+	if presClaims == nil || presClaims.Presentation == nil {
+		return nil, nil, errors.New("JWT claims have no 'vp' claim")
 	}
 
 	// Apply VC-related claims from JWT.
